@@ -20,6 +20,7 @@ Open Scope N_scope.
    ARE the data-model tables, for the two namespace structs and every nested struct *)
 Theorem C19_fields_iso : forall n, Forall (struct_matches_spec n) (structs n).
 Proof. exact fields_iso_all. Qed.
+Print Assumptions C19_fields_iso.
 
 (* exactly one element per supplied field of the data model, including every well-formed
    age_over_NN / biometric_template_XX, and nothing else — for EVERY JSON object *)
@@ -28,6 +29,7 @@ Theorem C19_exactly_supplied :
     ns_elements b64 n (JObj kvs) = Ok out ->
     NoDup (map fst out) /\ forall k, In k (map fst out) <-> expected_id n kvs k.
 Proof. exact exactly_supplied. Qed.
+Print Assumptions C19_exactly_supplied.
 
 (* each output value has the CBOR type the data model prescribes for its identifier *)
 Theorem C19_types :
@@ -35,6 +37,7 @@ Theorem C19_types :
     ns_elements b64 n (JObj kvs) = Ok out ->
     forall k v, In (k, v) out -> exists r, row_for (ns_dm n) k = Some r /\ cbor_type_ok (dm_class r) v.
 Proof. exact types. Qed.
+Print Assumptions C19_types.
 
 (* ... and is the supplied value, up to the documented case and UTC normalisation (den) *)
 Theorem C19_value_preserved :
@@ -44,6 +47,7 @@ Theorem C19_value_preserved :
       exists r j, row_for (ns_dm n) k = Some r /\ jget k kvs = Some j /\
                   den b64 spec_fuel n kvs (dm_class r) j v = true.
 Proof. exact value_preserved. Qed.
+Print Assumptions C19_value_preserved.
 
 (* a record with a missing (absent or null) mandatory field is rejected *)
 Theorem C19_missing_rejected :
@@ -51,6 +55,7 @@ Theorem C19_missing_rejected :
     In r (ns_dm n) -> dm_presence r = Mandatory -> supplied kvs (dm_id r) = false ->
     exists e, ns_elements b64 n (JObj kvs) = Err e.
 Proof. exact missing_rejected. Qed.
+Print Assumptions C19_missing_rejected.
 
 (* a record with an out-of-domain value is rejected (not altered, no panic): whole-record form,
    per fixed field, per age_over_NN / biometric_template_XX entry, per leaf type *)
@@ -58,6 +63,7 @@ Theorem C19_out_of_domain_rejected :
   forall b64 n kvs, NoDup (map fst kvs) ->
     ns_dom b64 n kvs = false -> exists e, ns_elements b64 n (JObj kvs) = Err e.
 Proof. exact out_of_domain_rejected. Qed.
+Print Assumptions C19_out_of_domain_rejected.
 
 Theorem C19_bad_value_rejected :
   forall b64 n kvs r j, NoDup (map fst kvs) ->
@@ -65,6 +71,7 @@ Theorem C19_bad_value_rejected :
     dom b64 spec_fuel n kvs (dm_class r) j = false ->
     exists e, ns_elements b64 n (JObj kvs) = Err e.
 Proof. exact bad_value_rejected. Qed.
+Print Assumptions C19_bad_value_rejected.
 
 Theorem C19_bad_family_value_rejected :
   forall b64 n kvs r f k j, NoDup (map fst kvs) ->
@@ -72,6 +79,7 @@ Theorem C19_bad_family_value_rejected :
     dom b64 spec_fuel n kvs (dm_class r) j = false ->
     exists e, ns_elements b64 n (JObj kvs) = Err e.
 Proof. exact bad_family_value_rejected. Qed.
+Print Assumptions C19_bad_family_value_rejected.
 
 (* per leaf type (every Rust type name of the two namespaces, at every nesting depth):
    Ok v => v is the prescribed encoding and the input is in the domain;
@@ -84,6 +92,7 @@ Theorem C19_leaf_types :
     | Panic _ => False
     end.
 Proof. exact (fun b64 f n name c ctx j H => name_leaf_spec b64 f n name c ctx j H). Qed.
+Print Assumptions C19_leaf_types.
 
 (* completeness: every record of the domain is accepted, and encoded faithfully *)
 Theorem C19_accepts_valid :
@@ -91,14 +100,17 @@ Theorem C19_accepts_valid :
     ns_dom b64 n kvs = true ->
     exists out, ns_elements b64 n (JObj kvs) = Ok out /\ faithful b64 n kvs out.
 Proof. exact accepts_valid. Qed.
+Print Assumptions C19_accepts_valid.
 
 (* unconditional: any JSON value, any base64 decoder *)
 Theorem C19_no_panic : forall b64 n j s, ns_elements b64 n j <> Panic s.
 Proof. exact no_panic. Qed.
+Print Assumptions C19_no_panic.
 
 Theorem C19_not_object_rejected :
   forall b64 n j, (forall kvs, j <> JObj kvs) -> exists e, ns_elements b64 n j = Err e.
 Proof. exact not_object_rejected. Qed.
+Print Assumptions C19_not_object_rejected.
 
 (* every code table, every row: from (to v) = v; codes pairwise distinct; from s = v -> to v =
    normalise s.  (Finite sweep over the generated rows, lifted by forallb_forall.) *)
@@ -109,6 +121,7 @@ Theorem C19_tables_roundtrip :
     (forall s v, assoc_b (normalise (st_norm t) s) (st_from t) = Some v ->
                  assoc_b v (st_to t) = Some (normalise (st_norm t) s)).
 Proof. exact tables_roundtrip_str. Qed.
+Print Assumptions C19_tables_roundtrip.
 
 Theorem C19_int_tables_roundtrip :
   forall n name t, In (name, t) (int_tables n) ->
@@ -116,6 +129,7 @@ Theorem C19_int_tables_roundtrip :
     NoDup (map snd (it_to t)) /\
     (forall x v, assoc_n x (it_from t) = Some v -> assoc_b v (it_to t) = Some x).
 Proof. exact tables_roundtrip_int. Qed.
+Print Assumptions C19_int_tables_roundtrip.
 
 (* ---------- examples: the hypotheses are inhabited; the former defect witnesses ---------- *)
 
